@@ -53,7 +53,7 @@ PROPS.update({
         level_text="Two or three real Log instances with the same key on one simulated lock store and storage, started at arbitrary steps (also while another instance is between its CAS and its uploads, so that recovery runs concurrently), interleaved at storage/lock-operation granularity with slow-node faults; oracle: no fork and append-only history over the union of all checkpoints, a CAS loser stops with the fatal error, acknowledges nothing from that round and commits nothing afterwards; at the end of every run eleven start-up states built from the final durable state (lock behind storage, same size/different root, foreign name/key, missing checkpoint, lock ahead without staging, checkpoint from the future, CreateLog over an existing log) must be refused while the unmodified twin loads.",
         expect_probes=["cas.lost", "probe.twin", "probe.lock-behind-storage", "fault.slow"]),
     "C07": dict(SEQ,
-        level_text="Duplicate submissions (same item resubmitted, client retries of failed submissions) in every phase of a round, with cache faults between incarnations (deleted, rolled back to a snapshot, converted to the legacy 128-bit table, rebuilt by the built cmd/recompute-cache binary from a materialised copy of the simulated storage, the log key being derived from a seed file the way cmd/sunlight does); oracle: within a cache epoch all acknowledgements of an entry carry one (index, timestamp); an entry that is pending or acknowledged in the epoch is never admitted again; leaves per entry <= admissions minus evictions; every acknowledgement from any cache source satisfies the C02 storage oracle; after the recompute-cache binary rebuilt the cache, resubmissions of entries it read (prefill entries included) are answered with an occurrence it read. Cache read faults (the table renamed away and back around a resubmission) must fail the submission, never admit it as new; in a quarter of the runs goroutines park before every acquisition of poolMu (yield points inserted into a build-time copy of ctlog.go) so that the scheduler orders submissions against the pool rotation.",
+        level_text="Duplicate submissions (same item resubmitted, client retries of failed submissions) in every phase of a round, with cache faults between incarnations (deleted, rolled back to a snapshot, converted to the legacy 128-bit table, rebuilt by the built cmd/recompute-cache binary from a materialised copy of the simulated storage, the log key being derived from a seed file the way cmd/sunlight does); oracle: within a cache epoch all acknowledgements of an entry carry one (index, timestamp); an entry that is pending or acknowledged in the epoch is never admitted again; leaves per entry <= admissions minus evictions; every acknowledgement from any cache source satisfies the C02 storage oracle; after the recompute-cache binary rebuilt the cache, resubmissions of entries it read (prefill entries included) are answered with an occurrence it read. Cache read faults (the table renamed away and back around a resubmission) must fail the submission, never admit it as new; in a quarter of the runs goroutines park before every acquisition of poolMu (yield points inserted into a build-time copy of ctlog.go) so that the scheduler orders submissions against the pool rotation. The workload contains precertificate twins: the same TBS under another issuer key (a distinct entry) and the same entry in another pre_certificate encoding (must deduplicate).",
         expect_probes=["fault.cache.delete", "fault.cache.rollback", "fault.cache.legacy", "fault.cache.recompute"]),
     "C08": dict(SEQ,
         level_text="After a simulated prefix, objects are deleted, truncated, bit-flipped, extended, swapped, rolled back or (data tiles, also inside staging bundles) re-encoded well-formed with one leaf changed (biased towards the newest data tile, the right-edge tiles, checkpoint and staging bundles that recovery reads), combined with crashes, restarts and further sequencing; oracle: every checkpoint committed to the lock store afterwards has root MTH(pre-tamper leaves ++ entries sunlight itself staged afterwards), those entries are submitted ones with the right indexes, and every acknowledgement names such an index. Refusing to load or stopping is accepted.",
@@ -62,7 +62,7 @@ PROPS.update({
         level_text="Signing half: every checkpoint committed in the simulated histories (all sizes, roots and timestamps they reach) must open with the public verifier, carry the ML-DSA cosignature, embed the round's clock reading and verify with ct-go's independent verifier over the rebuilt tree head; equal tree heads give equal signature bytes. Strictness half: each committed checkpoint is corrupted by 14 structure-aware mutators and whenever sunlight's note verifier accepts, the independent verifier must accept the same (origin,size,root,timestamp). Every committed tree head is signed a second time (equal RFC 6962 signature bytes required) and one injected-signer object is asked to sign texts its signature does not cover (whatever it signs must open with the public verifier). The strictness half is a function of bytes: simulation only supplies the inputs; stated here as exploration over inputs.",
         expect_probes=["c11.mutation.timestamp", "c11.mutation.blob-trailing-byte"]),
     "C17": dict(SEQ,
-        level_text="Arrival orders of high/low-priority/duplicate submissions against pool sizes 1..12 with ticks, failing rounds, stops and the read-only date crossed on the fake clock; the eviction victim is chosen by the scheduler (the low-priority map is narrowed to one candidate for the step). Oracle: occupancy never above the limit, rate-limit and eviction rules per admission, exactly one eviction per high-priority admission at a full pool, exactly one outcome per submitter, nobody left waiting after a stop, nothing acknowledged or signed after a stop, progress within a bounded number of steps once faults stop. Each run ends with an unnarrowed eviction burst (k>=2 low-priority entries in a full pool, one high-priority arrival) judged by counts only: exactly one eviction, k-1 low-priority entries left, everybody else sequenced.",
+        level_text="Arrival orders of high/low-priority/duplicate submissions against pool sizes 1..12 with ticks, failing rounds, stops and the read-only date crossed on the fake clock; the eviction victim is chosen by the scheduler (the low-priority map is narrowed to one candidate for the step). Oracle: occupancy never above the limit, rate-limit and eviction rules per admission, exactly one eviction per high-priority admission at a full pool, exactly one outcome per submitter, nobody left waiting after a stop, nothing acknowledged or signed after a stop, progress within a bounded number of steps once faults stop. Each run ends with an unnarrowed eviction burst (k>=2 low-priority entries in a full pool, one high-priority arrival) judged by counts only: exactly one eviction, k-1 low-priority entries left, everybody else sequenced. A round refused by the time guard must stop the sequencer; a submitter that panics got no outcome.",
         expect_probes=["evict.admission", "evict.narrowed", "stop", "sunset.stopped"]),
 })
 
